@@ -46,9 +46,11 @@ pub fn generate(rng: &mut Rng, property: &str, deep: bool) -> BScn {
         }
     }
     let n_keys = rng.range(3, 4) as usize;
+    // (rarely a selector whose map is empty: no key has a timeline)
+    let empty_map = rng.chance(0.03);
     let keys: Vec<Option<usize>> = (0..n_keys)
         .map(|_| {
-            if rng.chance(0.2) {
+            if empty_map || rng.chance(0.2) {
                 None
             } else {
                 Some(rng.usize_below(n_tls))
